@@ -10,8 +10,10 @@
 package pump
 
 import (
+	"bufio"
 	"context"
 	"fmt"
+	"io"
 	"net/netip"
 	"runtime/debug"
 	"strings"
@@ -42,6 +44,8 @@ type PP struct {
 	w         *World
 	hold      chan struct{} // non-nil while the harness plays a remote that does not read
 	holdReq   chan struct{}
+	mu2        sync.Mutex
+	writePanic string
 }
 
 // WriterCap is the capacity of the channel between a peer and its writer
@@ -151,6 +155,7 @@ func (pp *PP) drainWriter() {
 				close(b.done)
 				continue
 			}
+			pp.encodable(m)
 			pp.sentMu.Lock()
 			if len(pp.Sent) < 100000 {
 				pp.Sent = append(pp.Sent, m)
@@ -162,23 +167,80 @@ func (pp *PP) drainWriter() {
 	}
 }
 
+// encodable does what the real writer goroutine does with a queued message:
+// it serialises it with protocol.Write (into nothing).  A message that makes
+// Write panic would take the whole process down.
+func (pp *PP) encodable(m protocol.Message) {
+	if pc, ok := m.(protocol.Piece); ok {
+		// Write recycles the data buffer; the harness keeps the message
+		pc.Data = append([]byte(nil), pc.Data...)
+		m = pc
+	}
+	defer func() {
+		if r := recover(); r != nil {
+			pp.mu2.Lock()
+			if pp.writePanic == "" {
+				pp.writePanic = fmt.Sprintf("protocol.Write panicked on the %T that storrent queued for this peer (%+v): %v", m, m, r)
+			}
+			pp.mu2.Unlock()
+		}
+	}()
+	protocol.Write(bufio.NewWriter(io.Discard), m, nil)
+}
+
+// PeerTick plays one of the periodic branches of peer.Run's loop: "upload"
+// (the upload ticker), "expire" (request expiry and refill), "pex".
+func (pp *PP) PeerTick(kind string) (panicked string) {
+	pp.mu.Lock()
+	defer pp.mu.Unlock()
+	if !pp.Alive {
+		return ""
+	}
+	var err error
+	func() {
+		defer func() {
+			if r := recover(); r != nil {
+				panicked = fmt.Sprintf("peer tick %q panicked: %v [%s]", kind, r, firstFrames(debug.Stack()))
+			}
+		}()
+		switch kind {
+		case "upload":
+			err = peer.VerifScheduleUpload(pp.P, true)
+		case "expire":
+			if peer.VerifExpireRequests(pp.P) {
+				peer.VerifMaybeRequest(pp.P)
+			}
+		case "pex":
+			peer.VerifSendPex(pp.P)
+		}
+	}()
+	if err != nil {
+		pp.exitLocked()
+	}
+	return
+}
+
+// flushWriter sends a marker through the writer channel: when the draining
+// goroutine reaches it, everything written before is in Sent.
+func (pp *PP) flushWriter() {
+	b := barrier{make(chan struct{})}
+	select {
+	case pp.writer <- b:
+		select {
+		case <-b.done:
+		case <-pp.stop:
+		}
+	case <-pp.stop:
+	}
+}
+
 // TakeSent returns what storrent wrote to this peer.
 func (pp *PP) TakeSent() []protocol.Message {
 	pp.sentMu.Lock()
 	held := pp.hold != nil
 	pp.sentMu.Unlock()
 	if !held {
-		// a marker through the writer channel: when the draining goroutine
-		// reaches it, everything written before is in Sent
-		b := barrier{make(chan struct{})}
-		select {
-		case pp.writer <- b:
-			select {
-			case <-b.done:
-			case <-pp.stop:
-			}
-		case <-pp.stop:
-		}
+		pp.flushWriter()
 	}
 	pp.sentMu.Lock()
 	defer pp.sentMu.Unlock()
@@ -309,6 +371,21 @@ func (w *World) Drain() string {
 				pp.mu.Lock()
 				p := pp.panicked
 				pp.mu.Unlock()
+				if p != "" {
+					return p
+				}
+				// what the peer wrote has been serialised when TakeSent's marker
+				// comes through; flush here so that a panic is reported at the step
+				// that caused it
+				pp.sentMu.Lock()
+				held := pp.hold != nil
+				pp.sentMu.Unlock()
+				if !held {
+					pp.flushWriter()
+				}
+				pp.mu2.Lock()
+				p = pp.writePanic
+				pp.mu2.Unlock()
 				if p != "" {
 					return p
 				}
